@@ -1,7 +1,13 @@
 // Native replay of make/unmake counterexamples (C02, C03, C04, C15) against the g++-built real engine.
 // usage: make_replay <mode> "<fen>" <encoded move | null>
 // Expected values come from the independent mailbox reference (rt/chess_spec.h), not from the engine.
+#include <map>
+#include <sstream>
+#include <string>
+#include <vector>
+#define private public     /* the C03 replay reorders piece lists between a move and its take-back */
 #include "position.h"
+#undef private
 #include "movegen.h"
 #include "endgame.h"
 #include "zobrist_hash.h"
@@ -59,15 +65,28 @@ int main(int argc, char** argv) {
         if (isnull) pos.undo_null_move(mi); else pos.undo_move(mv, mi);
         if (pos.hash() != key0 || pos.pawn_hash() != pkey0) { printf("DIFF key after undo\n"); bad = 1; }
     } else if (mode == "c03") {
-        if (isnull) pos.undo_null_move(mi); else pos.undo_move(mv, mi);
-        bad |= differs(pos, &S, "after-undo");
-        if (pos.fen() != fen0) { printf("DIFF fen after undo '%s' vs '%s'\n", pos.fen().c_str(), fen0.c_str()); bad = 1; }
-        if (pos.hash() != key0 || pos.pawn_hash() != pkey0) { printf("DIFF key after undo\n"); bad = 1; }
-        Position fresh(fen0);
-        Move a[MAX_MOVES], b[MAX_MOVES];
-        int na = generate_moves(pos, pos.color(), a) - a, nb = generate_moves(fresh, fresh.color(), b) - b;
-        uint64_t sa = 0, sb = 0; for (int i = 0; i < na; i++) sa += a[i] * 2654435761u; for (int i = 0; i < nb; i++) sb += b[i] * 2654435761u;
-        if (na != nb || sa != sb) { printf("DIFF generated move set after undo\n"); bad = 1; }
+        // the take-back is tried from every order of the piece lists that a nested make/unmake pair can leave behind
+        // (no reordering, and each transposition of two entries of one list)
+        std::vector<Position> variants; variants.push_back(pos);
+        if (!isnull) for (int pc = 1; pc < 13; pc++) for (int i = 0; i < pos._piece_count[pc]; i++) for (int j = i + 1; j < pos._piece_count[pc]; j++) {
+            Position q = pos; std::swap(q._piece_position[pc][i], q._piece_position[pc][j]); variants.push_back(q);
+        }
+        int vi = 0;
+        for (Position& q : variants) {
+            int b1 = 0;
+            if (isnull) q.undo_null_move(mi); else q.undo_move(mv, mi);
+            b1 |= differs(q, &S, "after-undo");
+            if (q.fen() != fen0) { printf("DIFF fen after undo '%s' vs '%s'\n", q.fen().c_str(), fen0.c_str()); b1 = 1; }
+            if (q.hash() != key0 || q.pawn_hash() != pkey0) { printf("DIFF key after undo\n"); b1 = 1; }
+            Position fresh(fen0);
+            Move a[MAX_MOVES], b[MAX_MOVES];
+            int na = generate_moves(q, q.color(), a) - a, nb = generate_moves(fresh, fresh.color(), b) - b;
+            uint64_t sa = 0, sb = 0; for (int i = 0; i < na; i++) sa += a[i] * 2654435761u; for (int i = 0; i < nb; i++) sb += b[i] * 2654435761u;
+            if (na != nb || sa != sb) { printf("DIFF generated move set after undo (piece lists no longer describe the board)\n"); b1 = 1; }
+            for (int pc = 1; pc < 13; pc++) for (int i = 0; i < q._piece_count[pc]; i++) if (q._board[q._piece_position[pc][i]] != pc) { printf("DIFF piece list of %d holds square %d which has piece %d\n", pc, (int)q._piece_position[pc][i], (int)q._board[q._piece_position[pc][i]]); b1 = 1; }
+            if (b1) { printf("(list order variant %d of %zu)\n", vi, variants.size()); bad = 1; break; }
+            vi++;
+        }
     } else if (mode == "c15") {
         Position q(argv[2]);
         bool cap = q.move_is_capture(mv), quiet = q.move_is_quiet(mv), chk = q.move_gives_check(mv);
